@@ -63,6 +63,43 @@ class Skeleton:
       branch = 0
     return self.of_expr(f, rets[branch].value, choices)
 
+  def of_variants(self, f: FuncInfo, choices: typing.Dict[str, typing.Set[str]], max_paths=16):
+    """[(conditions, skeleton, return node)] for every path through f that returns a value:
+    `conditions` maps the text of each if-test decided on the path to its truth value.  Locals
+    assigned on the path are inlined, so `if c: sep = ";" else: sep = ":"; return a + sep + b` gives
+    the same two variants as two return statements."""
+    from . import match
+
+    class Need(Exception):
+      def __init__(self, key):
+        self.key = key
+    out, work, seen = [], [{}], set()
+    while work:
+      asg = work.pop()
+      if len(out) + len(work) > max_paths:
+        raise AnalysisError(f"{f.qualname}: too many printer variants")
+
+      def decide(test, asg=asg):
+        k = unparse(test)
+        if k not in asg:
+          raise Need(k)
+        return asg[k]
+      try:
+        kind, val = match.path_result(f.node, decide)
+      except Need as n:
+        work.append(dict(asg, **{n.key: True}))
+        work.append(dict(asg, **{n.key: False}))
+        continue
+      except match.PathUndecided as e:
+        raise AnalysisError(f"{f.qualname}: printer path cannot be followed ({e})")
+      sig = tuple(sorted(asg.items()))
+      if kind == "return" and val is not None and sig not in seen:
+        seen.add(sig)
+        out.append((dict(asg), self.of_expr(f, val, choices), val))
+    if not out:
+      raise AnalysisError(f"{f.qualname}: no returned string found")
+    return sorted(out, key=lambda t: sorted(t[0].items()))
+
   def of_expr(self, f: FuncInfo, e, choices) -> list:
     if isinstance(e, ast.Constant) and isinstance(e.value, str):
       return [Lit(e.value)]
